@@ -637,6 +637,28 @@ pub fn run(ctx: &'static Ctx) -> i32 {
         }
     }
     total.nontrivial += lens.len() as u64 * 4;
+    // block lengths at every digit-count boundary of the header, through the growable formatter
+    {
+        let mut big: Vec<usize> = vec![];
+        let maxk = ctx.tier.pick(7u32, 8u32);
+        for k in 1..=maxk {
+            let p = 10usize.pow(k);
+            big.extend([p - 1, p, p + 1]);
+        }
+        big.extend([255, 256, 257, 65535, 65536, 65537, 12_345_678]);
+        for &l in &big {
+            order += 1;
+            total.evals += 1;
+            total.nontrivial += 1;
+            let content: Vec<u8> = vec![b'x'; l];
+            let mut out: Vec<u8> = Vec::with_capacity(l + 16);
+            let r = Arbitrary(&content).format_response_data(&mut out);
+            let ok = r.is_ok() && dec_block(&out) == Some(&content[..]) && matches!(lib_token(&out).map(Arbitrary::try_from), Some(Ok(Arbitrary(p))) if p.len() == l);
+            if !ok {
+                ctx.violation(order, "block-header", &format!("block of {l} bytes is emitted with header `{}` (result {:?})", esc(&out[..out.len().min(14)]), r.map_err(|e| e.get_code())), json!({"kind": "bigblock", "len": l}));
+            }
+        }
+    }
     for s in ["", "abc", "h\u{e9}llo", "\u{20ac}", "a\"b;c,d\n", "0123456789"] {
         order += 1;
         total.evals += 1;
@@ -698,6 +720,19 @@ pub fn run(ctx: &'static Ctx) -> i32 {
             }
         }
     }
+    // a device may attach its own description (with quotes) to a standard error number
+    for code in [-300i16, -113, -222, -350, -800, 0, 5] {
+        for ext in [None, Some(&b"slot 3"[..]), Some(&b"x\"y"[..])] {
+            order += 1;
+            total.evals += 1;
+            let e = Error::custom(code, b"Probe \"A\" fault");
+            let e = match ext {
+                Some(x) => e.extended(Box::leak(x.to_vec().into_boxed_slice())),
+                None => e,
+            };
+            report(ctx, chk_error(&e), json!({"kind": "error-custom-std-code", "code": code, "ext": ext.map(esc)}), order);
+        }
+    }
     for m in [&b"it's"[..], b"say \"hi\"", b"a,b;c"] {
         let m: &'static [u8] = Box::leak(m.to_vec().into_boxed_slice());
         order += 1;
@@ -709,7 +744,7 @@ pub fn run(ctx: &'static Ctx) -> i32 {
     let mut c = cov();
     c.insert("evaluations".into(), json!(total.evals));
     c.insert("distinct_nontrivial".into(), json!(total.nontrivial));
-    c.insert("rule".into(), json!(format!("each value is formatted with the real ResponseData impl, decoded by the independent decoder refmodel/respdec.rs and parsed back with Tokenizer::new_params + TryFrom<Token>: all u8/i8/u16/i16 in decimal and (non-negative) #H/#Q/#B; {} boundary-directed 32/64-bit/size values (2^k +-2, 10^k +-1, bounds, shifted mantissa patterns); f32: {}; f64: {} bit patterns (every exponent x 65 mantissa patterns x both signs, powers of ten +-2 ulp, 17-digit cases); bool; every string of length <= {} over `a \" ' , ; SP NL` plus quote-only, long and non-ASCII strings (must be refused); blocks of every length 0..120, 999, 1000, 1001 with NUL/#/;/0xFF content; &str incl. non-ASCII; character and expression data; Vec/ArrayVec lists of 0..4 ints/strings/floats (empty list must be an error); derived enum variants; every standard error and custom errors with/without extended text over `a ; \" ,`. Distinct non-trivial = distinct values formatted", fam.len(), if ctx.tier == Tier::Thorough { "all 2^32 bit patterns".to_string() } else { "every exponent x ~1050 mantissa patterns + all 2^16 top-half patterns".to_string() }, nf, ctx.tier.pick(4, 5))));
+    c.insert("rule".into(), json!(format!("each value is formatted with the real ResponseData impl, decoded by the independent decoder refmodel/respdec.rs and parsed back with Tokenizer::new_params + TryFrom<Token>: all u8/i8/u16/i16 in decimal and (non-negative) #H/#Q/#B; {} boundary-directed 32/64-bit/size values (2^k +-2, 10^k +-1, bounds, shifted mantissa patterns); f32: {}; f64: {} bit patterns (every exponent x 65 mantissa patterns x both signs, powers of ten +-2 ulp, 17-digit cases); bool; every string of length <= {} over `a \" ' , ; SP NL` plus quote-only, long and non-ASCII strings (must be refused); blocks of every length 0..120, 999, 1000, 1001 with NUL/#/;/0xFF content and of the lengths 10^k-1, 10^k, 10^k+1 for k up to 7/8, 255..257, 65535..65537, 12345678; &str incl. non-ASCII; character and expression data; Vec/ArrayVec lists of 0..4 ints/strings/floats (empty list must be an error); derived enum variants; every standard error and custom errors with/without extended text over `a ; \" ,`, custom descriptions containing quotes attached to standard numbers. Distinct non-trivial = distinct values formatted", fam.len(), if ctx.tier == Tier::Thorough { "all 2^32 bit patterns".to_string() } else { "every exponent x ~1050 mantissa patterns + all 2^16 top-half patterns".to_string() }, nf, ctx.tier.pick(4, 5))));
     c.insert("exhaustive".into(), json!(true));
     c.insert("observation_f64_responses_not_in_strict_talker_form".into(), json!(total.strict_talker_deviations));
     c.insert("samples".into(), json!([
@@ -758,6 +793,24 @@ pub fn replay(case: &Value) -> Result<String, String> {
                 Some(e) => Error::new(e),
                 None => Error::custom(n, b"Custom error"),
             };
+            match case["ext"].as_str() {
+                Some(x) => chk_error(&e.extended(Box::leak(unesc(x).into_boxed_slice()))),
+                None => chk_error(&e),
+            }
+        }
+        Some("bigblock") => {
+            let l = case["len"].as_u64().unwrap() as usize;
+            let content: Vec<u8> = vec![b'x'; l];
+            let mut out: Vec<u8> = Vec::with_capacity(l + 16);
+            let r = Arbitrary(&content).format_response_data(&mut out);
+            if r.is_ok() && dec_block(&out) == Some(&content[..]) {
+                None
+            } else {
+                Some(("block-header".into(), format!("block of {l} bytes: header `{}`", esc(&out[..out.len().min(14)]))))
+            }
+        }
+        Some("error-custom-std-code") => {
+            let e = Error::custom(case["code"].as_i64().unwrap() as i16, b"Probe \"A\" fault");
             match case["ext"].as_str() {
                 Some(x) => chk_error(&e.extended(Box::leak(unesc(x).into_boxed_slice()))),
                 None => chk_error(&e),
